@@ -1060,7 +1060,7 @@ def main():
   ap.add_argument('--no-witnesses', action='store_true')
   ap.add_argument('--maxfail', type=int, default=10)
   a = ap.parse_args()
-  n = a.n if a.n is not None else (150000 if a.tier == 'thorough' else 8000)
+  n = a.n if a.n is not None else (150000 if a.tier == 'thorough' else 5000)
   bad = resolver_selfcheck()
   failures = [dict(kind='harness-error', sig='resolver-untruthful', what=b, program=None) for b in bad[:3]]
   items = [(i, a.seed * 1000003 + i, 1 + (i % 5)) for i in range(n)]
